@@ -86,6 +86,13 @@ func c13Run(c *ev.Ctx) {
 		dims, maxd, chunk = []uint64{n}, []uint64{hx.Unlimited}, []uint64{uint64(r.Range(int(n)/6, int(n)))}
 		kind = []string{"i64", "f64"}[r.Intn(2)]
 	}
+	// one case in forty: a grid of single-element chunks that is shrunk along one axis and grown
+	// to tens of thousands of chunks along the other in one call (within the declared maximum)
+	manyChunks := !large && c.Index%80 == 11
+	if manyChunks {
+		rank = 2
+		dims, maxd, chunk = []uint64{4, 4}, []uint64{hx.Unlimited, hx.Unlimited}, []uint64{1, 1}
+	}
 	zeroStyle := 0
 	if r.Chance(1, 3) {
 		zeroStyle = r.Range(1, 3)
@@ -175,6 +182,9 @@ func c13Run(c *ev.Ctx) {
 	if large {
 		nsteps, pattern = r.Range(1, 2), 3
 	}
+	if manyChunks {
+		nsteps = 1
+	}
 	cur := model
 	var pat []string
 	for i := 0; i < nsteps; i++ {
@@ -186,6 +196,16 @@ func c13Run(c *ev.Ctx) {
 			kindOp = []int{1, 0}[i%2]
 		case 3:
 			kindOp = 0
+		}
+		if manyChunks {
+			nd := []uint64{uint64(r.Range(1, 3)), uint64(r.Range(33000, 70000))}
+			if r.Bool() {
+				nd[0], nd[1] = nd[1], nd[0]
+			}
+			cur = cur.resize(nd)
+			steps = append(steps, step{op: hx.Op{K: "resize", Path: "/r", Dims: nd}, expect: "ok", after: cur})
+			pat = append(pat, "shrink+grow-to-many-chunks")
+			continue
 		}
 		switch kindOp {
 		case 0, 1: // grow / shrink
@@ -279,7 +299,12 @@ func c13Run(c *ev.Ctx) {
 		}
 		switch {
 		case st.expect == "ok" && !res.OK():
-			c.Violation("reject:"+st.op.K+":"+rk, wit(map[string]any{"step": i, "op": st.op.String(), "err": res.Err}))
+			if strings.Contains(res.Err, "at most 65535") {
+				// the documented limit of the single-node chunk index (listed finding): its own key
+				c.Violation("reject:"+st.op.K+":more-than-65535-chunks", wit(map[string]any{"step": i, "op": st.op.String(), "err": res.Err}))
+			} else {
+				c.Violation("reject:"+st.op.K+":"+rk, wit(map[string]any{"step": i, "op": st.op.String(), "err": res.Err}))
+			}
 			return
 		case st.expect == "fail" && res.OK():
 			c.Violation("accept-beyond-max:"+rk, wit(map[string]any{"step": i, "op": st.op.String()}))
